@@ -66,3 +66,9 @@ Fixpoint pairs_eqb (a b : list (nat * nat)) : bool :=
   | x :: a', y :: b' => Nat.eqb (fst x) (fst y) && Nat.eqb (snd x) (snd y) && pairs_eqb a' b'
   | _, _ => false
   end.
+
+(* what the property says about the comparison function: it is only ever called on pairs of distinct input events
+   (the code at this commit calls it on every pair of `pairs n`, once; a version that skips pairs whose answer cannot
+   matter would still satisfy the property) *)
+Definition calls_okb (n : nat) (calls : list (nat * nat)) : bool :=
+  forallb (fun p => negb (Nat.eqb (fst p) (snd p)) && Nat.ltb (fst p) n && Nat.ltb (snd p) n) calls.
